@@ -45,7 +45,7 @@ def dec(x, places):
 
 
 @st.composite
-def polyco(draw, mode=None):
+def polyco(draw, mode=None, extra=0):
     ncoeff = draw(st.sampled_from([2, 3, 4, 7, 12, 13, 15, 5]))
     span = draw(st.sampled_from([15, 30, 60, 90, 120, 360, 1440]))
     f0max = min(1000.0, 4e6 / (span * 30))
@@ -72,7 +72,9 @@ def polyco(draw, mode=None):
     fdig = draw(st.integers(6, 10))
     entries = []
     if mode == "model":
-        m = draw(st.integers(1, ncoeff - 1))
+        # (extra > 0: the model may have more terms than an entry holds, so entries are TRUNCATED expansions -- right on their own span to
+        # the digits printed, but no longer one and the same polynomial: extrapolating an entry beyond its span gives another phase)
+        m = draw(st.integers(1, ncoeff - 1 + extra))
         a = {}
         for k in range(2, m + 1):
             lim = min(F(1000), F(1, 100) * 60 * f0 * H / k)
@@ -101,7 +103,7 @@ def polyco(draw, mode=None):
             base = R0 + 60 * f0 * tau
             rph = dec(F(math.floor(base)) + F(draw(st.integers(0, 10**fdig - 1)), 10**fdig), fdig)
             entries.append({"tmid": ts, "rphase": rph, "coeffs": [sci(x, letter) for x in c]})
-    return {"mode": mode, "f0": dec(f0, 12), "span": span, "ncoeff": ncoeff, "entries": entries, "psr": draw(st.sampled_from(["B1937+21", "J0437-4715"])),
+    return {"mode": mode, "truncated": mode == "model" and m > ncoeff - 1, "f0": dec(f0, 12), "span": span, "ncoeff": ncoeff, "entries": entries, "psr": draw(st.sampled_from(["B1937+21", "J0437-4715"])),
             "via": draw(st.sampled_from(["stringio", "stringio", "file"]))}
 
 
@@ -358,9 +360,10 @@ def run_predict(case, stt):
 
 @st.composite
 def timeat_case(draw):
-    pc = draw(polyco(mode="model"))
+    pc = draw(polyco(mode="model", extra=draw(st.sampled_from([0, 0, 1, 2]))))
     n = len(pc["entries"])
-    return {"pc": pc, "j": draw(st.integers(0, n - 1)), "u": draw(st.floats(-0.45, 0.45)), "guess": draw(st.sampled_from(["none", "tmid", "near"]))}
+    return {"pc": pc, "j": draw(st.integers(0, n - 1)), "u": draw(st.floats(-0.45, 0.45)), "guess": draw(st.sampled_from(["none", "tmid", "near", "other_entry", "other_entry"])), "j2": draw(st.integers(0, n - 1)),
+            "u2": draw(st.floats(-0.45, 0.45))}
 
 
 def run_timeat(case, stt):
@@ -381,16 +384,33 @@ def run_timeat(case, stt):
         kw["guess"] = e.tmid
     elif case["guess"] == "near":
         kw["guess"] = e.tmid + float(F(case["u"]) * pc["span"] * 60 * F(9, 10)) * u.s
-    with lib("time_at"):
-        t = pred.time_at(target, **kw)
+    elif case["guess"] == "other_entry":
+        # any time the table covers is a valid starting point, also one in another entry than the answer's
+        e2 = ents[case.get("j2", 0)]
+        kw["guess"] = e2.tmid + float(F(case.get("u2", 0.0)) * pc["span"] * 60) * u.s
+        stt.label("guess_in_another_entry" if e2 is not e else "guess_in_same_entry")
+    try:
+        with lib("time_at"):
+            t = pred.time_at(target, **kw)
+    except Violation as ex:
+        if case["guess"] == "other_entry" and "ValueError" in str(ex):
+            # the iteration may step into a gap between spans from a far starting point: a refusal, not a wrong answer
+            stt.label("far_guess_refused")
+            return
+        raise
     with lib("predictor(time_at(phase))"):
         back = pred(t)
     f0 = float(F(Decimal(pc["f0"])))
     tol = F(1, 10**8) + F(f0 * 40e-12) + F(1, 10**8)
+    if "guess" in kw:
+        # the answer is the guess plus a number of seconds held in one double: its resolution grows with the distance from the guess
+        tol += abs(O.T(kw["guess"]) - T) * F(f0) * F(1, 2**52)
     d = abs(pred_exact(back)[0] - tv)
     check(d <= tol, "predictor(time_at(phase)) differs from the phase by {:.3g} cycles (tol {:.3g})", float(d), float(tol))
     dT = abs(O.T(t) - T) * F(f0)
-    check(dT <= 10 * tol, "time_at(phase) is {:.3g} cycles of rotation away from the time at which the formula gives that phase", float(dT))
+    if pc.get("truncated"):
+        stt.label("entries_disagree_outside_their_spans")  # (where two of them reach the phase, either time is an inverse: only the above is checked)
+    check(pc.get("truncated") or dT <= 10 * tol, "time_at(phase) is {:.3g} cycles of rotation away from the time at which the formula gives that phase", float(dT))
     # phases outside every interval
     lo = min(x.phase(x.T - x.half) for x in ents) - 10
     hi = max(x.phase(x.T + x.half) for x in ents) + 10
@@ -411,6 +431,6 @@ SUBS = [
         "non-trivial = >= 2 entries, a time farther than span/8 from TMID, and (NCOEFF % 3 != 0 or D exponents)",
         quick=1500, thorough=20000, pieces_quick=6),
     Sub("time_at", timeat_case(), run_timeat,
-        "self-consistent texts (entries are Taylor expansions of one phase model): time_at(phase) with no guess / TMID / nearby guess inverts "
+        "self-consistent texts (entries are Taylor expansions of one phase model): time_at(phase) with no guess / TMID / nearby guess / a guess anywhere in another entry inverts "
         "the prediction; phases outside raise; non-trivial = >= 2 entries", quick=500, thorough=8000, pieces_quick=4),
 ]
